@@ -45,9 +45,10 @@ enum Order { Forward, RevFirst, RevLast }
 enum Strat { Non, Ignore, Finish, NextN(u64) }
 /// the signal is sent before the call (and, in the Closed variants, the interrupt channel is closed before the call as well:
 /// every sender dropped / the receiver closed - the buffered signal is still to be honoured), or from inside the k-th
-/// function that starts
+/// function that starts; EarlierRun: the caller's state is shared between calls (`reborrow()`), an earlier call on the same
+/// graph was interrupted through it, and this call gets the state as that call left it
 #[derive(Clone, Copy, Debug, PartialEq)]
-enum When { Before, BeforeSendersDropped, BeforeReceiverClosed, InStart(usize) }
+enum When { Before, BeforeSendersDropped, BeforeReceiverClosed, InStart(usize), EarlierRun }
 
 #[derive(Clone)]
 struct Case { n: usize, edges: Vec<(usize, usize)>, desc: String }
@@ -71,13 +72,16 @@ impl Ctx {
     fn on_end(&self, id: usize) { self.trace.borrow_mut().push(Ev::End(id)); }
 }
 
-fn opts(order: Order, strat: Strat, include: bool, rx: mpsc::Receiver<InterruptSignal>) -> StreamOpts<'static, 'static> {
-    let st = match strat {
+fn new_state(strat: Strat, rx: mpsc::Receiver<InterruptSignal>) -> InterruptibilityState<'static, 'static> {
+    match strat {
         Strat::Non => InterruptibilityState::new_non_interruptible(),
         Strat::Ignore => InterruptibilityState::new_ignore_interruptions(rx.into()),
         Strat::Finish => InterruptibilityState::new_finish_current(rx.into()),
         Strat::NextN(n) => InterruptibilityState::new_poll_next_n(rx.into(), n),
-    };
+    }
+}
+
+fn opts<'a, 'b>(order: Order, include: bool, st: InterruptibilityState<'a, 'b>) -> StreamOpts<'a, 'b> {
     match order {
         Order::Forward => StreamOpts::new().interruptibility_state(st).interrupted_next_item_include(include),
         Order::RevFirst => StreamOpts::new().rev().interruptibility_state(st).interrupted_next_item_include(include),
@@ -91,7 +95,7 @@ fn bound(api: Api, strat: Strat, include: bool, when: When, n: usize) -> usize {
         Strat::Non | Strat::Ignore => n,
         Strat::NextN(k) if k >= 1 => k as usize,
         _ => match when {
-            When::Before | When::BeforeSendersDropped | When::BeforeReceiverClosed => 0,
+            When::Before | When::BeforeSendersDropped | When::BeforeReceiverClosed | When::EarlierRun => 0,
             When::InStart(_) => if include || api == Api::Stream { 1 } else { 0 },
         },
     }
@@ -106,8 +110,16 @@ fn run(c: &Case, api: Api, order: Order, strat: Strat, include: bool, when: When
         if when == When::BeforeSendersDropped { ctx.tx.borrow_mut().take(); }
         if when == When::BeforeReceiverClosed { rx.close(); }
     }
-    let o = opts(order, strat, include, rx);
+    let mut state = new_state(strat, rx);
     let mut g = build(c);
+    if when == When::EarlierRun {
+        // an earlier call through the same state: the signal is waiting, the call is interrupted at once and returns
+        ctx.tx.borrow().as_ref().unwrap().try_send(InterruptSignal).unwrap();
+        let _ = futures::executor::block_on(g.for_each_concurrent_with(None, opts(Order::Forward, true, state.reborrow()), |_f| async {}));
+        let _ = fn_graph::verif_hooks::event_log_take();
+        ctx.trace.borrow_mut().push(Ev::Signal); fn_graph::verif_hooks::event_log_push_user(1, 0);
+    }
+    let o = opts(order, include, state.reborrow());
     let cx = ctx.clone();
     let finished: std::cell::Cell<Option<bool>> = std::cell::Cell::new(None);
     let fin = &finished;
@@ -165,6 +177,7 @@ fn main() {
         for api in apis { for order in [Order::Forward, Order::RevFirst, Order::RevLast] { for strat in [Strat::Non, Strat::Ignore, Strat::Finish, Strat::NextN(0), Strat::NextN(1), Strat::NextN(2)] { for include in [true, false] {
             let mut whens = vec![When::Before, When::BeforeSendersDropped, When::BeforeReceiverClosed, When::InStart(0)];
             if c.n > 2 { whens.push(When::InStart(1)); }
+            if matches!(strat, Strat::Finish | Strat::NextN(0)) && api != Api::Stream { whens.push(When::EarlierRun); }
             for when in whens {
                 runs += 1;
                 let label = format!("{api:?} / {order:?} / {strat:?} / include={include} / signal {when:?} on {}", c.desc);
